@@ -250,7 +250,9 @@ def run(ctx):
                 d = {"code": "X", "message": "m", "severity": 1}
                 for n in names:
                     if ctx.rng.random() < 0.4:
-                        d[n] = ctx.rng.randint(0, 4) if n == "ec_row" else ctx.rng.choice(["", "a", "b", "B", "ab", "é"])
+                        d[n] = ctx.rng.randint(0, 4) if n == "ec_row" else \
+                            (ctx.rng.choice([0, 2, 10, 3]) if n == "ec_column" and ctx.rng.random() < 0.5 else
+                             ctx.rng.choice(["", "a", "b", "B", "ab", "é", "1", "10"]))
                 lst.append(d)
         else:
             lst = [dict(i) for i in lst]
@@ -272,7 +274,7 @@ def run(ctx):
         sort_reqs.append({"op": "c12.sort", "issues": items})
         sort_expect.append([d["_id"] for d in srt])
         # direct oracle: permutation + stable + ordered by the spec keys
-        keyf = lambda d: tuple(d.get(n, -1 if n == "ec_row" else "") for n in names)
+        keyf = lambda d: tuple(d.get(n, -1) if n == "ec_row" else str(d.get(n, "")) for n in names)
         if sorted(d["_id"] for d in srt) != list(range(len(lst))):
             ctx.violation("sort-not-a-permutation", {"n": len(lst)}, None)
         # the property's own order (hand-written, not taken from the source): file, sidecar column, sidecar key, row
